@@ -127,7 +127,11 @@ func (g *c04G) candidates(streams, sets, tsets bool) []c04Cand {
 	if streams {
 		for _, a := range g.arrs {
 			if g.rng == nil {
-				plain("wr", false, a, "0", "8")
+				// every index (out-of-range ones are refused): a result that wrongly aliases the middle or the
+				// tail of its receiver's storage (e.g. Remove(0) returning s[1:]) only shows at those indices
+				for i := 0; i < 4; i++ {
+					plain("wr", false, a, itoa(i), "8")
+				}
 			} else {
 				plain("wr", false, a, itoa(g.rng.Intn(4)), itoa(g.val()))
 			}
